@@ -29,8 +29,9 @@ THEOREMS = [
     "Jinns.Minibatch.epoch_exact_of_dvd",
     "Jinns.Minibatch.epoch_nodup_of_dvd",
     "Jinns.Minibatch.epoch_covers",
+    "Jinns.Minibatch.holdsC09_model",
 ]
-LEAN_MODULES = ["JinnsProofs.C09"]
+LEAN_MODULES = ["JinnsProofs.C09", "JinnsProofs.C09Holds"]
 RULE = ("cases = (generator kind, n, b, number of requests); every cursor owned by the generator is traced "
         "(store snapshot, PRNG-key-consumed flag, batch) with points labelled by their row in the initial store; "
         "non-trivial = the history crosses at least one epoch boundary after the first request (a second reshuffle "
